@@ -1,7 +1,7 @@
 (* Correspondence support for C13: compares the implementation's observed
    results with the models of Sys/{Json,Bits,Wire,Csv}.v, inside Coq. *)
 From Coq Require Import NArith.
-From Arrai Require Import Base.Val Sys.Outcome Sys.Json Sys.Bits Sys.Wire Sys.Csv.
+From Arrai Require Import Base.Val Sys.Outcome Sys.Json Sys.Bits Sys.Wire Sys.Csv Sys.Codec.
 
 (* ---------- denotation of a representation as a mathematical value ---------- *)
 Fixpoint den (r : rv) : val :=
@@ -231,3 +231,32 @@ Definition classify (g : cfg) (c : case13) : Z :=
 Record kcase := { k_id : Z; k_case : case13 }.
 Definition report (g : cfg) (l : list kcase) : list (Z * Z) :=
   filter (fun p => negb (Z.eqb (snd p) 0)) (map (fun k => (k_id k, classify g (k_case k))) l).
+
+(* ---------- histories of one configured JSON / YAML encoder ----------
+   The model results of the whole history are computed by Codec.history (under
+   today's quirks and repaired); the observed result at each position is
+   compared with the model result at that position.  Positions that depend on a
+   known-defective site fall back to the single-call classification. *)
+Record hcase := { h_id : Z; h_strict : bool; h_steps : list (rv * ojson) }.
+
+Fixpoint hist_codes (g : cfg) (strict : bool) (steps : list (rv * ojson)) (cur off : list (res json)) : list Z :=
+  match steps, cur, off with
+  | (r, o) :: steps', c :: cur', f :: off' =>
+      (if negb (out_of_model c) && res_json_eqb c f
+       then (if agree_json c o then 0 else 1)
+       else classify g (KEnc strict r o)) :: hist_codes g strict steps' cur' off'
+  | [], [], [] => []
+  | _, _, _ => [1]                                  (* the model history lost or gained a result *)
+  end.
+
+Definition classify_hist (g : cfg) (h : hcase) : Z :=
+  let rs := map fst (h_steps h) in
+  let cur := history json_encoder {| jc_quirks := c_j g; jc_strict := h_strict h |} rs in
+  let off := history json_encoder {| jc_quirks := jquirks_off; jc_strict := h_strict h |} rs in
+  match filter (fun z => negb (Z.eqb z 0) && negb (Z.eqb z 3)) (hist_codes g (h_strict h) (h_steps h) cur off) with
+  | z :: _ => z
+  | [] => 0
+  end.
+
+Definition report_hist (g : cfg) (l : list hcase) : list (Z * Z) :=
+  filter (fun p => negb (Z.eqb (snd p) 0)) (map (fun h => (h_id h, classify_hist g h)) l).
